@@ -78,7 +78,7 @@ def const(v) -> AV:
     if isinstance(v, (int, float)) and not isinstance(v, bool):
         return AV(E, "const", v, sh.literal(v))
     if isinstance(v, complex):
-        return AV(E, "const", v, sh.S(sh.PURE))
+        return AV(E, "const", v, sh.literal(v))
     return AV(E, "const", v, sh.S(sh.PURE) if isinstance(v, bool) else sh.TOP)
 
 
@@ -180,6 +180,17 @@ class Frame:
         self.ctrl: List[FrozenSet[str]] = []
         self.guards: List[str] = []
 
+    def sticky_ctrl(self, deps):
+        """control dependence that lasts until the end of the enclosing loop body / function
+        (code after 'if c: return/continue')."""
+        self.ctrl.append(deps)
+
+    def push_sticky(self):
+        return len(self.ctrl)
+
+    def pop_sticky(self, mark):
+        del self.ctrl[mark:]
+
     def ctrl_deps(self) -> FrozenSet[str]:
         out = set()
         for c in self.ctrl:
@@ -210,6 +221,34 @@ class Interp:
         self.unresolved_calls = 0
         self.resolved_calls = 0
         self.no_inline: Set[str] = set()
+        self.options: Dict[str, AV] = {}      # preset values of net._options[key]
+        self.heap: Dict[str, AV] = {}         # store-to-load forwarding for res_* / internal columns
+        self.forward_heap = True
+        self.record_local_stores = False
+        self._idxnames: Dict[str, Dict[int, str]] = {}
+
+    IDX_MODULES = {"bus": "pandapower.pypower.idx_bus", "branch": "pandapower.pypower.idx_brch",
+                   "gen": "pandapower.pypower.idx_gen", "bus_dc": "pandapower.pypower.idx_bus_dc",
+                   "branch_dc": "pandapower.pypower.idx_brch_dc"}
+    IDX_NOT_COLS = {"PQ", "PV", "REF", "NONE", "DC_REF", "DC_NONE", "DC_P", "DC_B2B"}
+
+    def idx_name(self, matrix: str, c: str) -> str:
+        """Map a literal integer column index to the idx_* constant name of that matrix."""
+        if not c.lstrip("-").isdigit():
+            return c
+        tab = self._idxnames.get(matrix)
+        if tab is None:
+            tab = {}
+            mn = self.IDX_MODULES.get(matrix)
+            if mn and self.repo.has_module(mn):
+                m = self.repo.module(mn)
+                for name, node in m.assigns.items():
+                    v = fold(node)
+                    if isinstance(v, int) and not isinstance(v, bool) and name not in self.IDX_NOT_COLS:
+                        tab.setdefault(v, []).append(name)
+            self._idxnames[matrix] = tab
+        names = tab.get(int(c), [])
+        return names[0] if len(names) == 1 else c
 
     # ------------------------------------------------------------------ entry points
     def net_av(self, tag="net") -> AV:
@@ -253,17 +292,28 @@ class Interp:
 
     # ------------------------------------------------------------------ statements
     def exec_body(self, body, fr: Frame):
+        """Returns None, or 'ret' / 'loop' when the block definitely ends in return/raise resp.
+        continue/break (the rest of the block is not executed)."""
         for st in body:
-            self.exec_stmt(st, fr)
+            t = self.exec_stmt(st, fr)
+            if t:
+                return t
+        return None
 
     def exec_stmt(self, st, fr: Frame):
         m = getattr(self, "s_" + type(st).__name__, None)
         if m is not None:
-            m(st, fr)
-        else:
-            for ch in ast.iter_child_nodes(st):
-                if isinstance(ch, ast.expr):
-                    self.eval(ch, fr)
+            return m(st, fr)
+        for ch in ast.iter_child_nodes(st):
+            if isinstance(ch, ast.expr):
+                self.eval(ch, fr)
+        return None
+
+    def s_Continue(self, st, fr):
+        return "loop"
+
+    def s_Break(self, st, fr):
+        return "loop"
 
     def s_Expr(self, st, fr):
         self.eval(st.value, fr)
@@ -307,10 +357,12 @@ class Interp:
             fr.ret = join(fr.ret, v)
         else:
             fr.ret = join(fr.ret, const(None))
+        return "ret"
 
     def s_Raise(self, st, fr):
         if st.exc is not None:
             self.eval(st.exc, fr)
+        return "ret"
 
     def s_Assert(self, st, fr):
         self.eval(st.test, fr)
@@ -351,31 +403,35 @@ class Interp:
         tv = self.eval(st.test, fr)
         b = truth(tv)
         if b is True:
-            self.exec_body(st.body, fr)
-            return
+            return self.exec_body(st.body, fr)
         if b is False:
-            self.exec_body(st.orelse, fr)
-            return
+            return self.exec_body(st.orelse, fr)
         env0 = dict(fr.env)
+        mark = len(fr.ctrl)
         fr.ctrl.append(tv.deps)
         fr.guards.append(norm(st.test, 120))
-        self.exec_body(st.body, fr)
+        term1 = self.exec_body(st.body, fr)
         env1 = fr.env
         fr.guards.pop()
+        del fr.ctrl[mark + 1:]
         fr.env = dict(env0)
         fr.guards.append("not(" + norm(st.test, 120) + ")")
-        self.exec_body(st.orelse, fr)
+        term2 = self.exec_body(st.orelse, fr)
         fr.guards.pop()
         env2 = fr.env
-        fr.ctrl.pop()
-        term1 = _terminates(st.body)
-        term2 = _terminates(st.orelse) if st.orelse else False
+        del fr.ctrl[mark:]
         if term1 and not term2:
             fr.env = env2
+            # the rest of the block runs only when the test was false
+            fr.sticky_ctrl(tv.deps)
         elif term2 and not term1:
             fr.env = env1
+            fr.sticky_ctrl(tv.deps)
         else:
             fr.env = join_env(env1, env2)
+        if term1 and term2:
+            return "ret" if (term1 == "ret" and term2 == "ret") else "loop"
+        return None
 
     def s_For(self, st, fr):
         it = self.eval(st.iter, fr)
@@ -383,18 +439,23 @@ class Interp:
         if items is not None and len(items) <= self.unroll_limit:
             for item in items:
                 self.assign(st.target, item, fr, st, loopvar=True)
-                self.exec_body(st.body, fr)
-            self.exec_body(st.orelse, fr)
-            return
+                mark = fr.push_sticky()
+                t = self.exec_body(st.body, fr)
+                fr.pop_sticky(mark)
+                if t == "ret":
+                    return "ret"
+            return self.exec_body(st.orelse, fr)
         elem = element_of(it)
         env0 = dict(fr.env)
         for _ in range(2):
             self.assign(st.target, elem, fr, st, loopvar=True)
             fr.ctrl.append(it.deps)
+            mark = fr.push_sticky()
             self.exec_body(st.body, fr)
+            fr.pop_sticky(mark)
             fr.ctrl.pop()
             fr.env = join_env(env0, fr.env)
-        self.exec_body(st.orelse, fr)
+        return self.exec_body(st.orelse, fr)
 
     s_AsyncFor = s_For
 
@@ -403,40 +464,53 @@ class Interp:
         for _ in range(2):
             tv = self.eval(st.test, fr)
             fr.ctrl.append(tv.deps)
+            mark = fr.push_sticky()
             self.exec_body(st.body, fr)
+            fr.pop_sticky(mark)
             fr.ctrl.pop()
             fr.env = join_env(env0, fr.env)
         self.exec_body(st.orelse, fr)
+        return None
 
     def s_With(self, st, fr):
         for it in st.items:
             v = self.eval(it.context_expr, fr)
             if it.optional_vars is not None:
                 self.assign(it.optional_vars, v, fr, st)
-        self.exec_body(st.body, fr)
+        return self.exec_body(st.body, fr)
 
     s_AsyncWith = s_With
 
     def s_Try(self, st, fr):
         env0 = dict(fr.env)
-        self.exec_body(st.body, fr)
+        tb = self.exec_body(st.body, fr)
         env_body = fr.env
-        envs = [env_body]
+        envs = []
+        terms = []
         for h in st.handlers:
             fr.env = join_env(env0, env_body)
             if h.name:
                 fr.env[h.name] = UNKNOWN
-            self.exec_body(h.body, fr)
-            if not _terminates(h.body):
+            th = self.exec_body(h.body, fr)
+            if not th:
                 envs.append(fr.env)
+            terms.append(th)
         fr.env = dict(env_body)
-        self.exec_body(st.orelse, fr)
-        envs[0] = fr.env
-        out = envs[0]
-        for e in envs[1:]:
-            out = join_env(out, e)
-        fr.env = out
-        self.exec_body(st.finalbody, fr)
+        if not tb:
+            tb = self.exec_body(st.orelse, fr)
+        if not tb:
+            envs.insert(0, fr.env)
+        if envs:
+            out = envs[0]
+            for e in envs[1:]:
+                out = join_env(out, e)
+            fr.env = out
+        tf = self.exec_body(st.finalbody, fr)
+        if tf:
+            return tf
+        if tb and all(terms) and not envs:
+            return "ret" if tb == "ret" and all(t == "ret" for t in terms) else "loop"
+        return None
 
     s_TryStar = s_Try
 
@@ -484,6 +558,17 @@ class Interp:
     def _mkstore(self, path, v, idx, fr, st, op=None, through_view=False):
         s = Store(path, v, idx, fr.ctrl_deps(), fr.fn, st, tuple(self.stack), op, through_view, tuple(fr.guards))
         self.stores.append(s)
+        if self.forward_heap and path.count(".") == 2 and (".res_" in path or "._" in path):
+            vv = v if v.kind != "colormeth" else v.with_(kind="val", data=None)
+            if vv.kind in ("val", "const"):
+                old = self.heap.get(path)
+                if op in ("aug",) and old is not None:
+                    # the augmented value already contains the old one (binop of current and rhs)
+                    self.heap[path] = vv
+                elif old is not None and (fr.ctrl or (idx is not None and idx.kind not in ("const", "slice") and not _full_slice(idx))):
+                    self.heap[path] = join(old, vv)
+                else:
+                    self.heap[path] = vv
         return s
 
     def _record_view_write(self, base: AV, v: AV, fr, st, op=None, idx: AV = None):
@@ -539,6 +624,8 @@ class Interp:
                 self._mkstore("ppc.?", v, idx, fr, st, op)
         elif k == "matrix":
             cols = matrix_cols(idx)
+            if cols:
+                cols = [self.idx_name(base.data, c) for c in cols]
             for c in (cols or ["*"]):
                 self._mkstore(f"ppc.{base.data}.{c}", v, idx, fr, st, op)
         elif k in ("dict", "obj"):
@@ -559,6 +646,12 @@ class Interp:
                 self._record_view_write(base, v, fr, st, op, idx)
             if isinstance(target.value, ast.Name) and target.value.id in fr.env:
                 old = fr.env[target.value.id]
+                if self.record_local_stores:
+                    lc = None
+                    if idx.kind == "tuple" and len(idx.data) == 2:
+                        c = idx.data[1]
+                        lc = c.data[0] if c.kind == "colconst" else (str(c.data) if c.is_const else None)
+                    self._mkstore(f"local.{target.value.id}.{lc if lc is not None else '*'}", v, idx, fr, st, op)
                 if old.kind == "val":
                     c = fr.ctrl_deps()
                     fr.env[target.value.id] = AV(old.deps | v.deps | idx.deps | c, "val", None,
@@ -665,6 +758,10 @@ class Interp:
         if k in ("options", "lookups", "is_elements", "dict", "ppc", "matrix", "tableloc"):
             return AV(base.deps, "bound", (base, attr))
         # generic value
+        if attr == "real":
+            return AV(base.deps, "val", None, sh.real_part(base.shape), base.via, base.view)
+        if attr == "imag":
+            return AV(base.deps, "val", None, sh.imag_part(base.shape), base.via, base.view)
         if attr in DF_ATTRS_KEEP:
             return AV(base.deps, "val", None, base.shape, base.via, base.view)
         if attr in ("loc", "iloc", "at", "iat"):
@@ -704,7 +801,12 @@ class Interp:
             for c in cols:
                 atom = f"{tag}.{t}.{c}"
                 deps.add(atom)
-                shp = sh.add(shp, sh.column_shape(c, atom))
+                hv = self.heap.get(atom) if self.forward_heap else None
+                if hv is not None:
+                    deps |= hv.deps
+                    shp = sh.add(shp, hv.shape)
+                else:
+                    shp = sh.add(shp, sh.column_shape(c, atom))
                 if base.view is not None:
                     views.add(atom)
         a = AV(frozenset(deps), "val", None, shp, base.via, frozenset(views) if views else None)
@@ -760,6 +862,8 @@ class Interp:
             return AV(idx.deps, "matrix", "?")
         if k == "matrix":
             cols = matrix_cols(idx)
+            if cols:
+                cols = [self.idx_name(base.data, c) for c in cols]
             rowdeps = idx_row_deps(idx)
             deps = set(base.deps) | rowdeps
             shp = sh.ZERO
@@ -774,6 +878,8 @@ class Interp:
             return AV(frozenset(deps), "val", None, shp, base.via, None)
         if k == "options":
             key = idx.data if idx.is_const else "?"
+            if key in self.options:
+                return self.options[key]
             return AV(frozenset([f"opt.{key}"]), "val", None, sh.S(sh.Mono(facs=[f"opt.{key}"])))
         if k == "is_elements":
             key = idx.data if idx.is_const else "?"
@@ -971,8 +1077,10 @@ class Interp:
     def e_Compare(self, node, fr):
         l = self.eval(node.left, fr)
         rs = [self.eval(c, fr) for c in node.comparators]
-        if len(rs) == 1 and l.is_const and rs[0].is_const and l.data is not NOFOLD and rs[0].data is not NOFOLD:
-            a, b = l.data, rs[0].data
+        r0 = as_pyconst(rs[0]) if len(rs) == 1 else None
+        l0 = as_pyconst(l)
+        if len(rs) == 1 and l0 is not None and r0 is not None:
+            a, b = l0.data, r0.data
             op = node.ops[0]
             try:
                 if isinstance(op, ast.Eq):
@@ -1093,6 +1201,26 @@ class Interp:
 
     # ------------------------------------------------------------------ calls
     def e_Call(self, node, fr):
+        # list mutation on a local list display: rebind the name to a new abstract list
+        fn = node.func
+        if (isinstance(fn, ast.Attribute) and isinstance(fn.value, ast.Name) and fn.attr in ("remove", "append", "extend")
+                and fn.value.id in fr.env and fr.env[fn.value.id].kind == "list" and len(node.args) == 1 and not node.keywords):
+            cur = fr.env[fn.value.id]
+            a = self.eval(node.args[0], fr)
+            if fn.attr == "append":
+                fr.env[fn.value.id] = AV(cur.deps, "list", list(cur.data) + [a])
+                return const(None)
+            if fn.attr == "extend" and a.kind in ("list", "tuple"):
+                fr.env[fn.value.id] = AV(cur.deps, "list", list(cur.data) + list(a.data))
+                return const(None)
+            if fn.attr == "remove" and a.is_const:
+                new = list(cur.data)
+                for i, x in enumerate(new):
+                    if x.is_const and x.data == a.data:
+                        del new[i]
+                        break
+                fr.env[fn.value.id] = AV(cur.deps, "list", new)
+                return const(None)
         f = self.eval(node.func, fr)
         args = []
         for a in node.args:
@@ -1439,6 +1567,10 @@ class Interp:
 
     def numpy_call(self, short, name, args, kwargs, fr, node, alld, via) -> AV:
         a0 = args[0] if args else None
+        if short == "real" and a0 is not None:
+            return AV(alld, "val", None, sh.real_part(shape_of(a0)), via, a0.view)
+        if short == "imag" and a0 is not None:
+            return AV(alld, "val", None, sh.imag_part(shape_of(a0)), via, a0.view)
         if short in ("sqrt",):
             return AV(alld, "val", None, sh.power(shape_of(a0), Fraction(1, 2)) if a0 is not None else sh.TOP, via)
         if short in ("square",):
@@ -1562,6 +1694,16 @@ def truth(v: AV):
     return None
 
 
+def as_pyconst(v: AV) -> Optional[AV]:
+    """const AV for constants and for list/tuple displays of constants, else None."""
+    if v.kind == "const":
+        return v if v.data is not NOFOLD else None
+    if v.kind in ("list", "tuple") and all(x.kind == "const" and x.data is not NOFOLD for x in v.data):
+        vals = [x.data for x in v.data]
+        return AV(E, "const", vals if v.kind == "list" else tuple(vals))
+    return None
+
+
 def deps_of(v: AV) -> FrozenSet[str]:
     if v.kind in ("tuple", "list"):
         out = set(v.deps)
@@ -1676,6 +1818,10 @@ def is_basic_slice(idx: AV) -> bool:
     if idx.kind == "tuple":
         return all(is_basic_slice(x) or x.kind == "colconst" for x in idx.data)
     return False
+
+
+def _full_slice(idx: AV) -> bool:
+    return idx.kind == "slice" and not idx.deps
 
 
 def prefix_pattern(node, fr, interp) -> str:
